@@ -27,4 +27,19 @@ def Cursor.seek (c : Cursor) (w : Whence) (off : Int) : Outcome (Nat × Cursor) 
     let s : Int := c.data.length + off
     if s < 0 ∨ s ≥ 2 ^ 64 then .err .ioInvalidInput else .ok (s.toNat, { c with pos := s.toNat })
 
+/-- `read_to_end` on a cursor: everything from the position (nothing when beyond the end) -/
+def Cursor.readAll (c : Cursor) : Bytes × Cursor :=
+  let out := c.data.drop c.pos
+  (out, { c with pos := c.pos + out.length })
+
+def Cursor.runOps : Cursor → List HOp → List Obs
+  | _, [] => []
+  | c, .read n :: ops => let (b, c') := c.read n; .bytes b :: Cursor.runOps c' ops
+  | c, .readAll :: ops => let (b, c') := c.readAll; .bytes b :: Cursor.runOps c' ops
+  | c, .seek w o :: ops =>
+    match c.seek w o with
+    | .ok (p, c') => .pos p :: Cursor.runOps c' ops
+    | .err k => .err k :: Cursor.runOps c ops
+    | _ => []
+
 end Rivia.Spec
